@@ -18,7 +18,7 @@ func main() {
 	defer sn.CleanupScratch()
 	nh := r.N(200, 5000)
 	o := gen.DefaultOpts()
-	so := hist.StepOpts{Reopen: true, Pool: true, Mine: true}
+	so := hist.StepOpts{Reopen: true, Pool: true, Mine: true, Engine: true}
 	hist.RunHistoriesX(r, nh, o, so, 10, 40, []hist.Auditor{hist.ModelAuditor}, func(s *hist.SUT, op hist.Op) []hist.Problem {
 		return hist.MustSucceed(op)
 	}, func(s *hist.SUT, rng *rand.Rand) []hist.Problem {
